@@ -292,6 +292,12 @@ def r17_inclusive_range(sig, body):
     return sig, body, n
 
 
+def r18_cmp_minmax(sig, body):
+    """R18: `cmp::max(a, b)` / `cmp::min(a, b)` -> `verif_max(a, b)` / `verif_min(a, b)` (std by contract, on the unit's integer type)"""
+    body, n = re.subn(r'\b(?:std::|core::)?cmp::(max|min)\s*\(', r'verif_\1(', body)
+    return sig, body, n
+
+
 RULES = {
     'R1': r1_error_macro,
     'R3': r3_continue_guard,
@@ -306,6 +312,7 @@ RULES = {
     'R15': r15_ref_pattern,
     'R16': r16_ok_or_else,
     'R17': r17_inclusive_range,
+    'R18': r18_cmp_minmax,
     'R14': r14_intern,
 }
 
